@@ -151,6 +151,12 @@ theorem C10_at_most_once (key : Batch → Nat) (cfg : Cfg) (ops : List Op) (x : 
     (fun r op h => ⟨J_step key h.1 op, M_step key h.1 h.2 op⟩) {} ⟨J_init key cfg, fun _ => by simp⟩ ops
   exact h.2 x
 
+/-- non-vacuity: the inequality is strict on the duplicate history (accepted twice, only one copy left),
+and the datastore entry that is left is a pending batch under its own key -/
+example :
+    let r := run realKey {} [.submit [] a1, .submit [] a1, .restart]
+    r.acc.count a1 = 2 ∧ (r.dlv ++ r.st.mem).count a1 = 1 ∧ r.st.disk = [(realKey a1, a1)] := by decide +kernel
+
 /-- non-vacuity: bound 2 reached, a restart in between -/
 example : (run realKey cfg2 [.submit [7] a1, .submit [7] a2, .restart, .submit [7] a3]).st.mem.length = 2 := by
   decide +kernel
@@ -209,6 +215,10 @@ theorem C10_reload_in_key_order (key : Batch → Nat) (cfg : Cfg) (ops : List Op
     map_congr_left (fun e he => (j.keyed e he).symm)
   rw [hk, pairwise_map]
   exact j.sorted
+
+/-- non-vacuity: arrival order `[1]`, `[2]`, `[3,·]`; key order after the restart is another one -/
+example : (run realKey {} ([.submit [] a1, .submit [] a2, .submit [] a3] ++ [.restart])).st.mem = [a2, a1, a3] := by
+  decide +kernel
 
 /-- PARTIAL (excludes the duplicate witness): if the keys of the accepted batches are pairwise
 distinct, then after every history – restarts and crashes before/after every durable write
